@@ -28,7 +28,7 @@ import PyxModel.Oal.Pos
 
   No Mathlib, no `import Lean`: linked into the driver.
 -/
-namespace Pyx.Oal
+namespace Pyx.OalLex
 
 /-! ## tables read from the source (instantiated in Gen/OalLex.lean) -/
 
@@ -435,4 +435,4 @@ def pairwiseDisjoint : List CharSet → Bool
   | [] => true
   | a :: rest => rest.all (fun b => a.disjoint b) && pairwiseDisjoint rest
 
-end Pyx.Oal
+end Pyx.OalLex
